@@ -705,3 +705,41 @@ def r15_9(run):
 
 
 RULES = [("R15.7", r15_7), ("R15.6", r15_6), ("R15.1", r15_1), ("R15.2", r15_2), ("R15.3", r15_3), ("R15.4", r15_4), ("R15.5", r15_5), ("R15.8", r15_8), ("R15.9", r15_9)]
+
+
+def r15_10(run):
+    """what is read back is the JSON-native form of what was stored: an Enum member (net.sector) comes back as its value, a plain
+    string.  The code that runs on every load (convert_format and what it calls, e.g. add_default_components) therefore compares
+    such state by value and never discriminates it with isinstance(net.<attr>, <Enum class>) -- that test is True for a freshly
+    created net and False for the same net after a round trip, so the loaded net takes another branch (a gas net comes back with the
+    components of all sectors)."""
+    from ..callgraph import CallGraph
+    ix = run.index
+    cg = CallGraph(ix)
+    root = ix.func("pandapipes.io.convert_format.convert_format")
+    funcs = [f for f in cg.reachable([root]).values() if f.module.startswith("pandapipes")]
+    enums = set()
+    for ci in ix.all_classes():
+        if any(U(b).rsplit(".", 1)[-1] in ("Enum", "StrEnum", "IntEnum", "Flag", "IntFlag") for b in ci.node.bases):
+            enums.add(ci.name)
+    n = 0
+    for f in funcs:
+        run.analysed(f)
+        for c in calls(f.raw_node):
+            if isinstance(c.func, ast.Name) and c.func.id == "isinstance" and len(c.args) == 2:
+                n += 1
+                a0 = c.args[0]
+                stored = (isinstance(a0, ast.Attribute) and isinstance(a0.value, ast.Name) and a0.value.id == "net") or \
+                         (isinstance(a0, ast.Subscript) and isinstance(a0.value, ast.Name) and a0.value.id == "net")
+                types_ = [U(x).rsplit(".", 1)[-1] for x in (c.args[1].elts if isinstance(c.args[1], (ast.Tuple, ast.List)) else [c.args[1]])]
+                hit = [t for t in types_ if t in enums]
+                if stored and hit:
+                    run.ob("%s|isinstance(%s, %s)|stored-state-compared-by-value" % (f.short, U(a0), hit[0]), False,
+                           "on the load path stored state is not discriminated by an Enum type test", run.where(f, c))
+    run.stat("functions_on_the_load_path", len(funcs))
+    run.ob("load-path-scanned", len(funcs) >= 5 and bool(enums), "functions reachable from convert_format: %d; Enum classes of the package: %s"
+           % (len(funcs), sorted(enums)), "src/pandapipes/io/convert_format.py")
+    run.floor(1)
+
+
+RULES.append(("R15.10", r15_10))
